@@ -284,8 +284,33 @@ def _ctor_raises(ctx, ci):
             args.append(Const(None))
         else:
             args.append(sym(p))
+    # attribute stores run the descriptors' __set__ (a cross-field check may live there); the single-field validators
+    # are switched off: the arguments are type-correct by construction, and C17.R4 decides the validators themselves
+    for d_ in m.subclasses('RegionAttribute'):
+        v_ = d_.methods.get('_validate')
+        if v_ is not None:
+            ev.hooks[v_.qualname] = lambda e, a, k: Const(None)
+    ev.descriptor_sets = True
     out = ev.run(init, [Obj(ci.name, {}, None, ci)] + args, {})
     return ev, ps, out.raises
+
+
+def _assign_raises(ctx, ci, fld, validators_on):
+    """raise outcomes of `obj.<fld> = NEW` on an instance of ci whose parameters all hold (symbolic, valid) values."""
+    from ..model import FuncInfo
+    m = ctx.model
+    ev = evaluator(ctx)
+    if not validators_on:
+        for d_ in m.subclasses('RegionAttribute'):
+            v_ = d_.methods.get('_validate')
+            if v_ is not None:
+                ev.hooks[v_.qualname] = lambda e, a, k: Const(None)
+    ev.descriptor_sets = True
+    node = ast.parse(f'def _assign(obj, new):\n    obj.{fld} = new\n').body[0]
+    fi = FuncInfo('_assign', f'{ci.module}:_assign', ci.module, None, node, ci.path)
+    inst = Obj(ci.name, {p_: sym('cur_' + p_, positive=True) for p_ in m.params_of(ci)}, None, ci)
+    out = ev.run(fi, [inst, sym('NEW_' + fld, positive=True)], {})
+    return ev, out.raises
 
 
 def _cmp_atoms(ev, raises):
@@ -331,19 +356,21 @@ def r5(ctx):
             if not fields:
                 continue
             n += 1
-            guarded = False
+            # enforced on assignment? assigning any of the constrained fields on a complete instance must be able to raise
+            # on a comparison of the new value with the other field (or, for a single field, with the same bound)
+            guarded = True
             for fld in fields:
-                k = m.descriptor_kind(ci, fld)
-                if k:
-                    v = m.method(m.cls(k), '_validate')
-                    others = [f2 for f2 in fields if f2 != fld] or [fld]
-                    if v and len(fields) > 1 and any(f2 in norm(v.node) for f2 in others):
-                        guarded = True
-                    if v and len(fields) == 1:
-                        # single-field constraint: enforced on assignment when the field's own validator
-                        # states the same comparison
-                        vt = [norm(x.test) for x in ast.walk(v.node) if isinstance(x, ast.If)]
-                        guarded = any(re_const(show(t)) in x for x in vt)
+                ev_a, r_a = _assign_raises(ctx, ci, fld, validators_on=(len(fields) == 1))
+                hit = False
+                for t2, exc2, _n2 in _cmp_atoms(ev_a, r_a):
+                    txt2 = show(t2, 300)
+                    if 'NEW_' + fld not in txt2:
+                        continue
+                    if len(fields) > 1 and any('cur_' + f2 in txt2 for f2 in fields if f2 != fld):
+                        hit = True
+                    if len(fields) == 1 and re_const(show(t)) in txt2:
+                        hit = True
+                guarded = guarded and hit
             if guarded:
                 ctx.ok(f'{ci.name}:{"/".join(fields)}', 'constraint also enforced on assignment')
             else:
@@ -351,7 +378,7 @@ def r5(ctx):
                         f'the constraint `not {show(t, 120)}` is checked only in the constructor: a later '
                         f'assignment to {" or ".join(fields)} can violate it (e.g. inner size >= outer size gives a '
                         'negative area / empty annulus)', init.loc(node) if hasattr(node, 'lineno') else init.loc())
-    ctx.need(n >= 7, 'cross-field constraints', f'only {n} found')
+    ctx.need(n >= 6, 'cross-field constraints', f'only {n} found')
 
 
 def re_const(text):
@@ -406,6 +433,10 @@ def r5b(ctx):
                     amap[show(t)] = (k, True)
                     break
                 nt = mk_not(t)
+                if not isinstance(nt, Cmp) and isinstance(t, Cmp) and t.op in ('<', '<=', '>', '>='):
+                    # not (a < b) == b <= a, etc. (spelled with <, <= only)
+                    nt = {'<': Cmp('<=', t.rhs, t.lhs), '<=': Cmp('<', t.rhs, t.lhs), '>': Cmp('<=', t.lhs, t.rhs),
+                          '>=': Cmp('<', t.lhs, t.rhs)}[t.op]
                 if isinstance(nt, Cmp) and pred_equiv(nt, w) == 'eq':
                     amap[show(t)] = (k, False)
                     break
@@ -829,7 +860,7 @@ RULES = [
     RuleDef('R2', 'validate-then-store; delete refused; validators raise', r2, 12),
     RuleDef('R3', 'single raw writer of instance state', r3, 1),
     RuleDef('R4', 'validator rejection predicates = documented domains (NaN-aware truth tables)', r4, 11),
-    RuleDef('R5', 'cross-field constraints guard assignment too', r5, 7),
+    RuleDef('R5', 'cross-field constraints guard assignment too', r5, 6),
     RuleDef('R5b', 'annulus constructors reject exactly outer <= inner (unit-aware)', r5b, 8),
     RuleDef('R6', 'metadata whitelist at every inserting entry point', r6, 6),
     RuleDef('R6b', 'multi-key metadata inserts are all-or-nothing', r6b, 3),
